@@ -10,20 +10,13 @@ from .config_rules import check_constants
 from . import array_folds as af
 from .vector_rules import check_component_map, VECTOR
 
-EXPLANATION = (
-    "Static rules: (R1) Array.to and Vector.to never store through their receiver; (R2) Array.to is evaluated in a rational "
-    "algebra over symbols (values A, unit scales OLD, NEW) with pint's Quantity semantics: the returned values are "
-    "A*OLD/NEW, labelled NEW, not cast or rounded, and a conversion to an equal unit is the identity; the conversion goes "
-    "through pint's .to so incompatible dimensions raise; (R3) Vector.to maps .to(unit) with the same argument over every "
-    "component; (R4) every `define` string of configure_constants is parsed and its CGS value and dimension compared with "
-    "the IAU 2015 / CODATA catalogue (relative tolerance 1e-3); (R5) one pint registry in the package, in the cgs system; "
-    "Units.__call__ returns a Unit unchanged, refuses a Quantity and otherwise parses through that registry.")
-NOT_DECIDED = ("pint's parsing of equivalent spellings and its numeric factors; floating-point round-trip error; the "
-               "effect of a user configuration file that differs from config/defaults.py")
-TRUSTED = ("CPython ast", "pint semantics of Quantity.to / magnitude / units (S6)", "constants catalogue S3 (sa/specs/dims.py)")
+EXPLANATION = '(R1) Array.to over unit relations x dtypes with unit ratios in an exact monomial algebra: identity for equal units, values scaled by old/new, labelled new, no cast back to the source dtype, incompatible dimensions raise, receiver untouched; (R3) Vector mapping methods (to, copy, reshape, indexing, neg, pow) on 1-3 components; (R4) configure_constants interpreted on a recording registry, definitions evaluated in the dimension domain against an independently sourced catalogue S3 (1e-3) and required aliases; (R5) one registry construction (cgs) in the package, Units folded on a recording registry: constants defined on THE registry, Quantity refused, Unit returned unchanged, strings parsed as written over a history of spellings (a cache may only be keyed on the exact string).'
+NOT_DECIDED = "pint's parsing of equivalent spellings and its numeric factors; floating-point round-trip error; a user configuration file that differs from config/defaults.py"
+TRUSTED = ('CPython ast', 'pint semantics of Quantity.to / magnitude / units', 'constants catalogue S3 (sa/specs/dims.py)', 'the interpreter sa/models.py (ModelEval) and its library models')
 
 ARRAY = "core/array.py::Array"
 
+TECHNIQUE = 'static analysis: abstract interpretation over unit tokens, dimension-domain evaluation of unit definitions'
 
 def r1_r2_array_to(run, tree):
     run.rule("C08.R1", "Array.to: receiver not written; ratio old/new; result labelled new; identity shortcut; no lossy cast",
